@@ -1,7 +1,7 @@
 (* run_line: one case line in, one result line out.  Evaluated by the extracted OCaml driver
    (volume) and inside coqc by vm_compute (cross-check of extraction and driver). *)
 From Coq Require Import Strings.String.
-From BP7 Require Import Base.Prelude Base.Decimal Model.Hex Model.DtnTime Cbor.Item Spec.CrcSpec Spec.Rfc9171 Model.Types Model.Encode Model.Decode Run.Proto Run.BundleIO Run.RunClock.
+From BP7 Require Import Base.Prelude Base.Decimal Model.Hex Model.DtnTime Cbor.Item Spec.CrcSpec Spec.Rfc9171 Model.Types Model.Encode Model.Decode Run.Proto Run.BundleIO Run.RunClock Run.RunOps.
 
 Definition show_res {A} (show : A -> list byte) (r : res A) : list byte :=
   match r with
@@ -117,6 +117,8 @@ Definition run_cmd (m : ovf_mode) (cmd : tok) (args : list tok) : list byte :=
   else if tok_is cmd "NOW" then run_now m args
   else if tok_is cmd "SCHED" then run_sched args
   else if tok_is cmd "SCHEDP" then run_sched_pinned args
+  else if tok_is cmd "VALIDATE" then run_validate args
+  else if tok_is cmd "OPS" then run_ops m args
   else if tok_is cmd "DEC" then run_dec args
   else if tok_is cmd "ENC" then run_enc args
   else if tok_is cmd "CRCV" then run_crcv args
